@@ -354,7 +354,7 @@ def run(ctx):
             ctx.violations[k] = ("replayed case still fails", payload)
         shutil.rmtree(scratch, ignore_errors=True)
         return ctx.finish(RULE, False, [])
-    total = 40000 if ctx.thorough else 1920
+    total = 16000 if ctx.thorough else 1920
     infra = core.hypothesis_search(ctx, "pyv.c03", total)
     scratch = core.make_scratch("C03", "kf")
     rc = ctx.finish(RULE, False, [
